@@ -121,12 +121,16 @@ void install_environment(const rr::ContextModel& cm) {
 }
 
 const rr::Tags kSingDatv = { rr::tag_index("sing"), rr::tag_index("datv") };
+rr::Tags sorted_tags(std::vector<int> t) { std::sort(t.begin(), t.end()); return t; }
+// two forms whose tag codes have the same count and the same sum (any additive hash of a form collides on them)
+const rr::Tags kPlurNomn = sorted_tags({ rr::tag_index("plur"), rr::tag_index("nomn") });
+const rr::Tags kSingGent = sorted_tags({ rr::tag_index("sing"), rr::tag_index("gent") });
 const std::string kYa = "\xD1\x8F", kB = "\xE2\x84\xAC", kHan = "\xF0\xA0\x9C\x8E", kZhe = "\xD0\xB6";
 
 std::vector<rr::ContextModel> resolve_contexts() {
   std::vector<rr::ContextModel> v(3);
   v[0].name = "ascii"; v[0].processor = 0;            // X3 missing, X4 empty term, X2 has a manual form
-  v[0].terms["X1"] = { "Test", {} }; v[0].terms["X2"] = { "cat", { { kSingDatv, "to-cat" } } }; v[0].terms["X4"] = { "", {} };
+  v[0].terms["X1"] = { "Test", {} }; v[0].terms["X2"] = { "cat", { { kSingDatv, "to-cat" }, { kPlurNomn, "cats" }, { kSingGent, "of-cat" } } }; v[0].terms["X4"] = { "", {} };
   v[1].name = "multibyte"; v[1].processor = 1;        // X1 shorter, X2 longer (in code points) than the reference text
   v[1].terms["X1"] = { kYa + kB, {} };
   v[1].terms["X2"] = { "\xD1\x87\xD0\xB5\xD0\xBB\xD0\xBE\xD0\xB2\xD0\xB5\xD0\xBA" + kHan + "\xD1\x80\xD0\xB0\xD0\xB7\xD1\x83\xD0\xBC\xD0\xBD\xD1\x8B\xD0\xB9" + kB, {} };
@@ -142,7 +146,8 @@ const std::vector<std::string> kTokens = {
   "@{X1|nomn}", "@{X2|sing,datv}", "@{X3|nomn}", "@{X4|plur}", "@{-1|" + kZhe + "}", "@{1|abc}", "@{2|q}", "@{0|z}",
   "@{X1|}", "@{|nomn}", "@{X1|nomn|}", "@{X1|nomn|sing|1}", "@{99999999999|a}", "@{40000|a}",
   "@", "{", "}", "@{", "|", "a", kYa, kB, kHan, " ",
-  "@{1|}", "@{X2| datv ,UNKN,sing}", "@{-32768|a}" };
+  "@{1|}", "@{X2| datv ,UNKN,sing}", "@{-32768|a}",
+  "@{X2|plur,nomn}", "@{X2|sing,gent}" };   // the same entity in two more forms with manual word forms of their own (context ascii)
 const std::string kRaw = "@{}|X1,";
 
 rr::Ref to_model(const Reference& r) {
